@@ -131,7 +131,15 @@ def generate(seed, tier="quick"):
         for e in events:
             if prng2.random() < 0.4 and sites[e["site"]]["op"] == "eq":
                 e["uni"] = prng2.choice(["äöü", "日本", "é"])
-    return {"program": prog, "driver": driver, "fmt": draw_fmt(sub(seed, "fmt")), "flags": flags, "strict": True, "second": "update", "allow_raises": True}
+    fmt = draw_fmt(sub(seed, "fmt"))
+    wrng = sub(seed, "crlf")
+    if wrng.random() < 0.12:
+        # a project with windows line ends (file and, in half of the cases, a format-command that writes CRLF): real line ends inside
+        # multi-line literals must still read back as "\n"
+        prog["files"][0]["header"] = {"eol": "crlf"}
+        if wrng.random() < 0.6:
+            fmt = {"kind": "cmd", "stub": "black-crlf", "mode": {"line_length": wrng.choice([40, 88])}}
+    return {"program": prog, "driver": driver, "fmt": fmt, "flags": flags, "strict": True, "second": "update", "allow_raises": True}
 
 
 def execute(case, ctx):
